@@ -120,6 +120,8 @@ def ladder_docs():
                     items.append(b"t%d %s %d" % (i, OPS8[i % 8], i))
                     items += [b"s%d" % i] * s
                 add("triples", n * 100 + p * 10 + s, b"a={ " + b" ".join(items) + b" }", [("first", "n", p + 3 * n + s * n + 1)])      # + the marker
+    for n in (1, 2, 3, 7, 8, 9, 17, 33, 65, 129, 300):      # triples in the remainder of an object that turns into an array
+        add("remainder-triples", n, b"a={ k=1 v " + b" ".join(b"t%d %s %d" % (i, OPS8[i % 8], i) for i in range(n)) + b" }", [("first", "fl", 1), ("first", "rem", 1 + 3 * n)])
     for c in lad(0, 33):
         add("consecutive-operators", c, b"a={ 1 k" + b" =" * c + b" v }", [])
         add("consecutive-operators-mixed", c, b"a={ 1 k" + b"".join(b" " + OPS8[i % 8] for i in range(c)) + b" v w=x }", [])
